@@ -11,7 +11,18 @@
 
    Partiality: a function returns None exactly where the Python raises (KeyError on an unknown node name,
    ValueError of list.remove, the asserts, rustworkx NoEdgeBetweenNodes).  Conditions the code does NOT check
-   but the samplers always meet are collected in [pre] (side conditions of the edit grammar). *)
+   but the samplers always meet are collected in [pre] (side conditions of the edit grammar).
+
+   Modelling decisions (validated by the per-edit correspondence of harness/pv/props/C06.py, C07.py):
+   - the four redundant views of the real Tree (graph payloads, two name<->index maps, _data) are one rose
+     tree here; their mutual consistency is checked on the real object by pv.trees.abs_impl (C07);
+   - sibling order and rustworkx' traversal order are not modelled: children are kept in the order in which
+     the model attaches them, relabel_nodes / the graft renaming walk that order.  Which clone gets which
+     name may therefore differ from the real tree; the SET of names after an edit does not;
+   - the graft's clash test `node_name in self._data` is modelled as "is the name of a live clone (or was
+     just given to a grafted one)": equal as long as every clone owns data (then every live name is a key of
+     _data) and no stale key survives (remove_subtree / relabel_nodes delete them);
+   - copy() is the identity: aliasing between a tree and its copy is tested on the real object, not modelled. *)
 From PV Require Export Base.Dist.
 From Coq Require Export Bool PeanoNat Permutation.
 Open Scope nat_scope.
